@@ -12,7 +12,7 @@ var vlens = []int{0, 1, 3, 8, 20, 20, 40, 120, 300}
 func baseGen() GenParams {
 	return GenParams{
 		Steps: 24, MaxBatch: 5, KeyPool: midKeys, VLens: vlens, TimeMode: "any", Rollovers: allRollovers,
-		Versions: true, ChkRec: true, RmIndex: true, IndexCfg: -1, Tomb: 15,
+		Versions: true, ChkRec: true, RmIndex: true, IndexCfg: -1, Tomb: 15, ROPct: 20,
 		WPublish: 45, WDelete: 18, WDeleteMulti: 6, WReopen: 10, WGC: 3, WSync: 2, WTrim: 3, WCompact: 3,
 		TrimKinds: []string{"offset", "count", "age"}, CompactKinds: []string{"updates", "deletes"},
 	}
@@ -115,6 +115,65 @@ func seqProfile0(prop, tier string) *SeqProfile {
 		return &SeqProfile{Prop: prop, Gen: g, NRandom: tierN(tier, 400, 6000), Module: "TraceAbs.tla", Cfg: "TraceAbs.cfg",
 			Obs:  Obs{Scan: true, JudgeDelete: true, Maxes: []int64{3, 32}},
 			Rule: "C12: every Delete/DeleteMulti result (set, content, size, error) judged, followed by a full scan.",
+		}
+	case "C11":
+		g.IxProbe, g.IxProbeExtra = true, tierN(tier, 1, 4)
+		g.WReopen = 12
+		g.Steps = 20
+		q := []string{"n", "a", "b", "c", "g"}
+		return &SeqProfile{Prop: prop, Gen: g, NRandom: tierN(tier, 250, 3000), Module: "TraceAbs.tla", Cfg: "TraceAbs.cfg",
+			Obs: Obs{JudgeLayout: true, KeyQ: q, JudgeOpen: true},
+			Hist: func(id int, seed int64) *History {
+				gg := g
+				if id%2 == 0 {
+					gg.TimeMode = "mono"
+				}
+				return genHistory(id, seed, gg)
+			},
+			Rule: "C11: at every close every segment is projected by the reference codec (index file = index derived from the log file; timestamps when times never decrease); then the directory is copied and reopened rw and ro with all / each single / seeded subsets of index files removed and the answers to a fixed query sweep (Stat first) are compared with the unmodified copy.",
+		}
+	case "C15":
+		g.WTrim, g.WCompact, g.WDelete, g.WDeleteMulti, g.WPublish = 22, 0, 8, 3, 45
+		g.TrimKinds = []string{"offset", "count", "size", "age"}
+		g.Versions = false
+		g.Steps = 28
+		return &SeqProfile{Prop: prop, Gen: g, NRandom: tierN(tier, 500, 8000), Module: "TraceAbs.tla", Cfg: "TraceAbs.cfg",
+			Obs: Obs{JudgeTrim: true, Scan: true, Maxes: []int64{32}},
+			Hist: func(id int, seed int64) *History {
+				gg := g
+				gg.SingleVer = 1 + id%2
+				if id%3 == 0 {
+					gg.TimeMode = "mono"
+				}
+				return genHistory(id, seed, gg)
+			},
+			Rule: "C15: every FindBy* result and the following Trim* call (Multi, MultiOffsets and single-pass variants) judged; Stat size bound after TrimBySizeMulti; full scan afterwards. Single-version logs (size bound).",
+		}
+	case "C16":
+		g.WTrim, g.WCompact, g.WDelete, g.WDeleteMulti, g.WPublish, g.WReopen = 0, 25, 4, 2, 50, 6
+		g.CompactKinds = []string{"updates", "deletes", "updates", "deletes", "both"}
+		g.KeyPool = smallKeys
+		g.Tomb = 35
+		g.TimeMode = "spaced"
+		g.Steps = 26
+		return &SeqProfile{Prop: prop, Gen: g, NRandom: tierN(tier, 500, 8000), Module: "TraceAbs.tla", Cfg: "TraceAbs.cfg",
+			Obs: Obs{JudgeCompact: true, Scan: true, Maxes: []int64{32}},
+			Hist: func(id int, seed int64) *History {
+				gg := g
+				if id%4 == 0 {
+					gg.KeyPool = []string{"n", "a"}
+				}
+				return genHistory(id, seed, gg)
+			},
+			Rule: "C16: every CompactUpdates*/CompactDeletes*/Compact call judged (latest value per key unchanged, only allowed messages removed, at most one message per key left at or before the cut-off); full scan afterwards.",
+		}
+	case "C17":
+		g.Versions = true
+		g.WReopen = 18
+		g.WDelete, g.WDeleteMulti = 22, 6
+		return &SeqProfile{Prop: prop, Gen: g, NRandom: tierN(tier, 400, 6000), Module: "TraceAbs.tla", Cfg: "TraceAbs.cfg",
+			Obs:  Obs{Scan: true, Next: true, Layout: true, JudgeOpen: true, Maxes: []int64{32}},
+			Rule: "C17: per-file format versions (projected by the reference codec) before/after every Open, Publish, Delete and Migrate judged against the version rules; scan and NextOffset after every step.",
 		}
 	}
 	return nil
